@@ -225,7 +225,7 @@ func runC24(c *core.Ctx) {
 				return true
 			}
 			for _, ft := range core.CtlFactsAt(omr, ret) {
-				if cl, isC := core.Unparen(ft.Expr).(*ast.CallExpr); isC && ft.Truth && ch != nil && core.Callee(omr.Pkg, cl) == ch.Obj {
+				if cl := core.CallOf(omr, ft.Expr); cl != nil && ft.Truth && ch != nil && core.Callee(omr.Pkg, cl) == ch.Obj {
 					ok = true
 				}
 			}
